@@ -662,7 +662,9 @@ func growthFamilies() []growth {
 		g("list-childinfo", "list-extended-item", false, func(n int) string {
 			return `* LIST () "/" INBOX ("CHILDINFO" (` + strings.TrimSuffix(rep(`"SUBSCRIBED" `, n), " ") + "))\r\n"
 		}),
-		g("status-items", "status-att", false, func(n int) string { return "* STATUS INBOX (" + strings.TrimSuffix(rep("MESSAGES 1 ", n), " ") + ")\r\n" }),
+		g("status-items", "status-att", false, func(n int) string {
+			return "* STATUS INBOX (" + strings.TrimSuffix(rep("MESSAGES 1 ", n), " ") + ")\r\n"
+		}),
 		g("search-ascending", "search", false, func(n int) string { return "* SEARCH " + numsList(n, 2, 1, " ") + "\r\n" }),
 		g("search-descending", "search", false, func(n int) string { return "* SEARCH " + numsList(n, -2, 2*n+1, " ") + "\r\n" }),
 		g("search-adjacent", "search", false, func(n int) string { return "* SEARCH " + numsList(n, 1, 1, " ") + "\r\n" }),
